@@ -407,7 +407,7 @@ fn check(c: &SegLine, rec: &mut CaseRec) -> Verdict {
 }
 
 pub fn property() -> Property {
-    let families: Vec<Box<dyn Family>> = vec![prop_family("segment-lines", 12_000, 600_000, |_| seg_line(), check)];
+    let families: Vec<Box<dyn Family>> = vec![prop_family("segment-lines", 150_000, 2_000_000, |_| seg_line(), check)];
     Property {
         id: "C12",
         rule: "Lines are built from segments tagged by construction as free (keywords, identifiers over the full alphabet incl. SCORE/TOTAL/FORK/NOTE/XTHEN, numerals incl. .5 / 007 / '1 2', one- and two-character operators incl. spaced ones, punctuation, quotes, blanks), protected (string interiors, REM tails, unterminated-string rests) or DATA items (quoted / bare / numeric). Per base line the check applies: all blanks removed; a blank / tab / three blanks at every free gap; each gap individually; all 2^k gap subsets when k <= 8 (random subsets otherwise); all-lower, all-upper, each single letter flipped, random flips. Oracle: the token sequence (or, for untokenizable bases, the error kind and the tokens before it) through the tokenizer hook is identical for every variant, and LIST of `10 <variant>` equals LIST of `10 <base>`. Each variant is one evaluation. Non-trivial: base with >= 4 tokens containing a keyword-bearing identifier, two-character operator, spaced numeral or DATA, and at least one variant whose bytes differ; distinct by base text. Lines whose free text accidentally spells REM or DATA are excluded (counted).",
